@@ -585,7 +585,15 @@ func rdbDiffClass(e *rdbExpect, got *redisd.Value) string {
 		return "type"
 	}
 	if strings.HasSuffix(cont, "65535") {
-		return "truncated" // elements are missing; which one is an accident of the layout
+		// a header that says "count by traversal": elements are missing and which one is an
+		// accident of the layout - unless the first wrong element is an integer entry, then
+		// it is the integer decoding that failed
+		e2 := *e
+		e2.Spec.Enc.UnknownLen = false
+		if c := rdbDiffClass(&e2, got); strings.Contains(c, "int") && rdbContainer(&e2) == "ziplist" {
+			return c
+		}
+		return "truncated"
 	}
 	switch want.T {
 	case 's':
@@ -734,7 +742,11 @@ func rdbOracle(prefix string, scn rdbScenario, built *rdbBuilt, out *rdbOutcome)
 		rdbNormalise(e.Value, got)
 		a, b := rdbCanon(e.Value), rdbCanon(got)
 		if strings.Join(a, "\n") != strings.Join(b, "\n") {
-			return mc.Violation("content on the target differs from the snapshot", prefix+":content:"+sh+":"+rdbDiffClass(e, got),
+			class := rdbDiffClass(e, got)
+			if class != "truncated" {
+				sh = strings.TrimSuffix(sh, "-zllen65535")
+			}
+			return mc.Violation("content on the target differs from the snapshot", prefix+":content:"+sh+":"+class,
 				detail(map[string]interface{}{"key": e.Spec.Key, "path": path, "case": e.Spec.Case, "enc": e.Spec.Enc, "expected": rdbClipLines(a), "found": rdbClipLines(b)}))
 		}
 		lo, hi := e.Value.ExpireAt, e.Value.ExpireAt
